@@ -227,6 +227,12 @@ fn full_snapshot(m: &Model) -> (Vec<String>, Vec<(i32, i32)>) {
 /// must not change any cell — otherwise the first evaluation left something that does not
 /// correspond to the current results (a block of the wrong size, an old value, a stale #SPILL!)
 fn check_stable(m: &Model, fails: &mut Vec<(String, String)>) {
+    check_stable_with(m, fails, false)
+}
+
+/// `cse_overlap`: the history contains an edit typed into the range of a fixed-range (CSE) array, or a
+/// CSE array entered over a formula cell (the situation of finding F31b)
+fn check_stable_with(m: &Model, fails: &mut Vec<(String, String)>, cse_overlap: bool) {
     let mut copy = match Model::from_bytes(&m.to_bytes(), "en") {
         Ok(x) => x,
         Err(_) => return,
@@ -241,7 +247,13 @@ fn check_stable(m: &Model, fails: &mut Vec<(String, String)>) {
     if after.0 != before.0 {
         let diff: Vec<String> = before.0.iter().filter(|x| !after.0.contains(x)).take(4).cloned().collect();
         let diff2: Vec<String> = after.0.iter().filter(|x| !before.0.contains(x)).take(4).cloned().collect();
-        let sig = if before.1 != after.1 { "c31:unstable-after-evaluate:spill-error-changed" } else { "c31:unstable-after-evaluate" };
+        let sig = if cse_overlap {
+            "c31:unstable-after-evaluate:cse-array-overlap"
+        } else if before.1 != after.1 {
+            "c31:unstable-after-evaluate:spill-error-changed"
+        } else {
+            "c31:unstable-after-evaluate"
+        };
         fails.push((sig.into(), format!("a second evaluate changes the sheet: {:?} becomes {:?}", diff, diff2)));
     }
 }
@@ -291,6 +303,7 @@ fn eval_hist(req: &str) -> ImplOut {
     let mut n_spilled = 0;
     let mut n_err = 0;
     let mut cse_children: HashSet<(i32, i32)> = HashSet::new();
+    let mut cse_overlap = false;
     for op in ops.split(';') {
         let p: Vec<&str> = op.split('.').collect();
         match p[0] {
@@ -301,6 +314,8 @@ fn eval_hist(req: &str) -> ImplOut {
                 let res = m.set_user_input(0, r, c, text);
                 if res.is_err() {
                     tags.push("edit:refused".into());
+                } else if p[0] != "X" && cse_children.contains(&(r, c)) {
+                    cse_overlap = true;
                 }
                 if p[0] == "D" && !matches!(cell_at(&m, r, c), Some(Cell::ArrayFormula { kind: ArrayKind::Dynamic, .. })) {
                     tags.push("kind:dynamic-formula-not-recognised".into());
@@ -309,6 +324,14 @@ fn eval_hist(req: &str) -> ImplOut {
             "A" => {
                 let n = |i: usize| -> i32 { p.get(i).and_then(|x| x.parse().ok()).unwrap_or(1) };
                 let text = p.get(5).and_then(|x| unhex(x)).unwrap_or_default();
+                let covers_formula = (n(1)..n(1) + n(4)).any(|r| {
+                    (n(2)..n(2) + n(3)).any(|c| {
+                        (r, c) != (n(1), n(2)) && matches!(cell_at(&m, r, c), Some(Cell::CellFormula { .. }) | Some(Cell::ArrayFormula { .. }))
+                    })
+                });
+                if covers_formula {
+                    cse_overlap = true;
+                }
                 if m.set_user_array_formula(0, n(1), n(2), n(3), n(4), &text).is_err() {
                     tags.push("edit:refused".into());
                 } else {
@@ -325,7 +348,7 @@ fn eval_hist(req: &str) -> ImplOut {
                 dumps.push(dump(&m));
                 check_invariant_with(&m, &mut fails, &cse_children);
                 check_exact_with(&m, &mut fails, &cse_children);
-                check_stable(&m, &mut fails);
+                check_stable_with(&m, &mut fails, cse_overlap);
                 // #SPILL! exactly when the natural block is blocked or leaves the grid
                 if p.get(1).map(|x| *x != "-").unwrap_or(false) {
                     for spec in p[1].split('_') {
@@ -612,7 +635,13 @@ fn gen_history_cse(rng: &mut Rng) -> String {
             }
             3 | 4 | 5 => {
                 let (w, h) = (rng.range(1, 3), rng.range(1, 3));
-                let text = if rng.chance(1, 2) { format!("=SEQUENCE({h},{w})") } else { "=A1:A2*2".to_string() };
+                // a third of the fixed-range arrays read (part of) their OWN range: circular
+                let text = match rng.below(6) {
+                    0 | 1 => format!("=SEQUENCE({h},{w})"),
+                    2 | 3 => "=A1:A2*2".to_string(),
+                    4 => format!("={}:{}+1", a1(at.0, at.1), a1(at.0 + h as i32 - 1, at.1 + w as i32 - 1)),
+                    _ => format!("={}:{}+1", a1(at.0, at.1), a1(at.0 + h as i32 - 1, at.1)),
+                };
                 ops.push(format!("A.{}.{}.{w}.{h}.{}", at.0, at.1, hex(&text)));
             }
             6 => {
@@ -646,6 +675,8 @@ fn gen_hist(ctx: &Ctx, sink: &mut dyn FnMut(String)) {
     let mut rng = Rng::new(ctx.seed ^ 0xC31);
     // F31b: a dynamic formula typed into a not yet evaluated CSE range, and a CSE range entered over a
     // dynamic anchor that has spilled
+    // a CSE array whose range contains cells it reads (circular; was: grew on every evaluate)
+    sink(format!("c31 hist A.1.1.2.2.{};E.-;E.-;E.-", h("=B1:C2+1")));
     sink(format!("c31 hist A.1.1.2.2.{};D.2.2.{};E.2,2,2,1", h("=SEQUENCE(2,2)"), h("=SEQUENCE(2,1)")));
     sink(format!("c31 hist D.2.2.{};E.2,2,2,1;A.1.1.2.2.{};E.2,2,2,1", h("=SEQUENCE(2,1)"), h("=SEQUENCE(2,2)")));
     let count = if ctx.tier == Tier::Quick { 300 } else { 20_000 };
